@@ -222,6 +222,9 @@ func (c *Ctx) Finish() int {
 	wall := time.Since(c.Start).Seconds()
 	cov := c.Cov
 	if _, ok := cov["samples"]; !ok {
+		if c.samples == nil {
+			c.samples = []interface{}{}
+		}
 		cov["samples"] = c.samples
 	}
 	exhaustive := len(c.capsHit) == 0
